@@ -4,7 +4,7 @@ and keeps the repo's suite green) the named checks must report a VIOLATION whose
 fragment; for every edit under selftest/benign (behaviour-preserving) all checks must stay silent.
 Works on scratch copies under a fresh temp dir outside /repo and /verif; each is removed when its verdict is read.
 
-usage: run.py [--suite] [--only NAME] [--jobs N] [--all-checks]
+usage: run.py [--suite] [--only NAME] [--ids a,b] [--jobs N] [--all-checks] [--seeded [--own-only]] [--benign-dir D]
   --suite       also (re)run `cargo test` on each scratch copy and record whether the suite stays green
   --all-checks  run all 20 checks on every mutant (default: only the expected ones; benign edits always get all)
 """
@@ -84,6 +84,8 @@ def one(m, suite=False, all_checks=False):
             res["suite_green"] = r.returncode == 0
             res["suite_tail"] = r.stdout[-300:] if r.returncode else ""
         checks = ALL if (all_checks or m["kind"] in ("benign", "seeded")) else m["expect"]
+        if m["kind"] == "seeded" and "--own-only" in sys.argv:
+            checks = m["expect"][:1]          # quick regression pass: is every seed still reported by its own property's check?
         env = dict(os.environ, VERIF_REPO=root, VERIF_EVIDENCE_DIR=os.path.join(tmp, "evidence"))
         fired = {}
         for c in checks:
@@ -133,6 +135,9 @@ def main():
         items = [{"name": os.path.basename(bd) + "/" + fn, "kind": "benign", "patch": os.path.join(bd, fn), "expect": []} for fn in sorted(os.listdir(bd)) if fn.startswith("refactor_") and fn.endswith(".diff")]
     if only:
         items = [m for m in items if only in m["name"]]
+    if "--ids" in args:
+        ids = set(args[args.index("--ids") + 1].split(","))
+        items = [m for m in items if m["name"].split("/")[-1] in ids]
     bad = 0
     with cf.ThreadPoolExecutor(jobs) as ex:
         for res, m in zip(ex.map(lambda m: one(m, suite, allc), items), items):
@@ -145,7 +150,13 @@ def main():
                 hit = sorted(c for c, v in fired.items() if v["exit"] == 1)
                 own = m["expect"][0] in hit
                 meta = json.load(open(m["meta_path"]))
-                meta["checks_that_fire"] = {c: fired[c]["keys"] for c in hit}
+                if "--own-only" in sys.argv:
+                    prev = dict(meta.get("checks_that_fire", {}))
+                    prev.pop(m["expect"][0], None)
+                    prev.update({c: fired[c]["keys"] for c in hit})
+                    meta["checks_that_fire"] = prev
+                else:
+                    meta["checks_that_fire"] = {c: fired[c]["keys"] for c in hit}
                 meta["caught_by_own_property_check"] = own
                 json.dump(meta, open(m["meta_path"], "w"), indent=1)
                 print("%s %-34s own=%s fired=%s" % ("CAUGHT " if own else ("OTHER  " if hit else "MISSED "), m["name"], m["expect"][0], ",".join(hit)))
